@@ -171,6 +171,7 @@ type Task struct {
 	probes  map[string]int
 	faults  map[string]int
 	memo    map[uint64][2]string // (function, faults, document as it was) -> outcome of the first such call
+	everOwn map[uintptr]bool     // containers that were part of the task's documents before its first in-place edit
 }
 
 // World is one run.
@@ -622,6 +623,11 @@ func (w *World) execOp(t *Task, idx int) {
 	case opEditDoc:
 		if t.docs != nil {
 			d := t.docs[o.Doc%len(t.docs)]
+			if t.everOwn == nil {
+				// an edit may detach a subtree that earlier results still refer to: it stays
+				// the caller's memory, shared by those results, and is never "handed over"
+				t.everOwn = allContainerIDs(t.docs)
+			}
 			if o.Arg%4 != 1 || !editRawInPlace(d.Val, o.Arg) {
 				editInPlace(d.Val, o.Arg)
 			} else {
@@ -636,6 +642,9 @@ func (w *World) execOp(t *Task, idx int) {
 			k := t.results[o.Arg%len(t.results)]
 			if o.Arg2 != 0 && t.docs != nil {
 				own := allContainerIDs(t.docs)
+				for id := range t.everOwn {
+					own[id] = true
+				}
 				seen := map[uintptr]bool{}
 				n := 0
 				for i := range k.res {
@@ -850,9 +859,62 @@ func (w *World) progressVerdict(res *RunResult) {
 		res.Violation = &Violation{Class: w.prop + ":deadlock", Key: w.lastParsePath(),
 			Detail: fmt.Sprintf("all tasks blocked (task %d waits for a mutex nobody will release)", res.Stats.AbortWho)}
 	case simrt.AbortBudget:
-		res.Violation = &Violation{Class: w.prop + ":no-progress-within-step-budget", Key: w.lastParsePath(),
-			Detail: fmt.Sprintf("task %d exceeded the per-operation step budget", res.Stats.AbortWho)}
+		// "No progress" is a statement relative to what the operation costs when it runs
+		// alone: it is re-executed as a reference with an eighth of the budget.  Only an
+		// operation that completes within that and nevertheless used the whole budget up
+		// under the schedule is a verdict; an operation that is heavy by itself (a quadratic
+		// filter over a large document) is not judged.
+		solo, completed, what := w.soloCost(res.Stats.AbortWho)
+		if completed && solo*8 < simrt.OpBudget() {
+			res.Violation = &Violation{Class: w.prop + ":no-progress-within-step-budget", Key: w.lastParsePath(),
+				Detail: fmt.Sprintf("task %d exceeded the per-operation step budget in %s, which takes %d steps when it runs alone", res.Stats.AbortWho, what, solo)}
+		} else {
+			res.Probes["heavy-operation-exceeded-step-budget(not-judged)"]++
+		}
 	}
+}
+
+// soloCost re-executes the operation a task was in when the run was aborted as a reference
+// (solo mode, own copy of the document, fresh Recorder with the same plan).
+func (w *World) soloCost(who int) (steps int64, completed bool, what string) {
+	if who < 0 || who >= len(w.tasks) {
+		return 0, false, ""
+	}
+	t := w.tasks[who]
+	var o *Op
+	for _, c := range t.ops {
+		if !c.Done {
+			o = c
+			break
+		}
+	}
+	if o == nil || o.Path == nil {
+		return 0, false, ""
+	}
+	what = fmt.Sprintf("%v", o)
+	simrt.SetMode(simrt.ModeSolo)
+	old := simrt.SetOpBudget(simrt.OpBudget() / 8)
+	defer func() {
+		simrt.SetOpBudget(old)
+		simrt.SetMode(simrt.ModeOff)
+	}()
+	rec := &Recorder{}
+	out := ""
+	switch o.Kind {
+	case opCall, opCallShared, opCallPublished, opRetrieve:
+		pf := soloParse(o.Path, o.Cfg)
+		steps = simrt.SoloSteps()
+		if pf.Fn == nil {
+			return steps, !strings.Contains(pf.Out, "DIVERGED"), what
+		}
+		out, _ = soloEvalP(pf, deepCopy(w.docOf(t, o.Doc).Val), o.Faults, o.Panics, rec)
+		steps += simrt.SoloSteps()
+	default:
+		pf := soloParse(o.Path, o.Cfg)
+		out = pf.Out
+		steps = simrt.SoloSteps()
+	}
+	return steps, !strings.Contains(out, "DIVERGED") && steps <= old/8, what
 }
 
 func (w *World) lastParsePath() string {
